@@ -9,7 +9,7 @@ RULE = ("trees are enumerated by TLC as sequences of public operations (MC_Eleme
 
 
 def run(tier, rep):
-    pools = ["case", "separators", "concat", "shadow", "keywords", "prefixed", "nonascii", "nonascii2", "nonasciicaps", "offsets", "depth", "underscore", "fields", "fields2", "xmlnsish", "attrcase", "kwsibling", "kwparent", "suffixlit"]
+    pools = ["case", "separators", "concat", "shadow", "keywords", "prefixed", "nonascii", "nonascii2", "nonasciicaps", "offsets", "bignum", "depth", "underscore", "fields", "fields2", "xmlnsish", "attrcase", "kwsibling", "kwparent", "suffixlit"]
     pools += ["digits", "caseruns", "digitlocal"] + rc.keyword_pools(tier)
     rc.render_pools(rep, "C04", tier, pools, rc.C04_TAGS, limit=600 if tier == "quick" else 15000)
     rc.random_trees(rep, "C04", tier, rc.C04_TAGS, n=300 if tier == "quick" else 5000)
